@@ -232,6 +232,12 @@ class TotalProgress(Target):
                 ('one-when-all-stages-finished', Implies(all_done, close_to_one(t)))]
 
 
+def UNLOCKED_WRITERS():
+    """the calls comp_done.add(...) in control.py that are not inside a `with ….comp_lock:` block (current /repo source)"""
+    from pyvc import frames
+    return frames.calls_outside_lock('python/experiment/runtime/control.py', 'comp_done', 'add', 'comp_lock')
+
+
 class TotalProgressSnapshot(Target):
     """The status monitor's view of the controller.  The sets 'stages in transit' and 'stages finished' are read from a
     controller that OTHER THREADS keep changing (finishedCheck moves a stage from in-transit to finished); the sum is a
@@ -245,7 +251,8 @@ class TotalProgressSnapshot(Target):
     slice = ('active_stages = {}', 'self.statusFile.setTotalProgress(stage_status)', True)
     float_sensitive = True
     max_paths = 200000
-    trusted = ["comp_lock excludes the controller's writers (finishedCheck adds to comp_done under comp_lock: C01 frame lemma)",
+    trusted = ["a thread inside `with comp_lock:` is excluded by comp_lock holders only: whether every writer of comp_done takes "
+               "the lock is CHECKED on the source (frames.calls_outside_lock); if one does not, the environment may act under the lock too",
                "compute_stage_status returns a value in [0,1] (get_stage_status, proved below; status programs trusted)"]
     assumptions = ["3 stages, the current one is stage 1; every initial placement of the other two (not started / in transit / "
                    "finished); the environment may finish any stage in transit at any unlocked call (BOUNDED in n)"]
@@ -266,8 +273,9 @@ class TotalProgressSnapshot(Target):
         progress = {}
 
         def env_step(c, where):
-            # another thread (finishedCheck) may complete a stage whenever the lock is not held by this thread
-            if g['held']:
+            # another thread (finishedCheck) may complete a stage whenever it is not excluded: holding comp_lock excludes it
+            # only if every writer of comp_done takes that lock -- read off the source (frame obligation), not assumed
+            if g['held'] and not UNLOCKED_WRITERS():
                 return
             for i in sorted(world):
                 if world[i] == 'transit' and c.one_of('%s: stage %d finishes meanwhile' % (where, i), [False, True]):
